@@ -56,7 +56,7 @@ static int verify(Obj& o, Model& m, Learned& L, Report& rep, const char* why, Sn
       if (v <= 0) return rep.fail(sigf("c11:status-range:%s:GET_BITRATE", C).c_str(), "multistream GET_BITRATE reports %d", v);
       if (m.bitrate != OPUS_AUTO && m.bitrate != OPUS_BITRATE_MAX && !m.ms_bitrate_is_status && v != m.bitrate)
         return rep.fail(sigf("c11:%s:%s:GET_BITRATE", why, C).c_str(), "%s (%d channels): GET_BITRATE reports %d after SET_BITRATE stored %d", KIND_NAME[m.kind], m.channels, v, m.bitrate);
-      snap.add("BITRATE", v, true);
+      snap.add("BITRATE", v, false);
       if (!rep.exclude("F13")) EXPECTV("MAX_BANDWIDTH", OPUS_GET_MAX_BANDWIDTH_REQUEST, m.max_bw);
     }
     EXPECTV("VBR", OPUS_GET_VBR_REQUEST, m.vbr);
@@ -66,8 +66,11 @@ static int verify(Obj& o, Model& m, Learned& L, Report& rep, const char* why, Sn
     EXPECTV("PACKET_LOSS_PERC", OPUS_GET_PACKET_LOSS_PERC_REQUEST, m.loss);
     EXPECTV("DTX", OPUS_GET_DTX_REQUEST, m.dtx);
     EXPECTV("VBR_CONSTRAINT", OPUS_GET_VBR_CONSTRAINT_REQUEST, m.cvbr);
-    if (m.mapping_type == 1) STATUSV("FORCE_CHANNELS", OPUS_GET_FORCE_CHANNELS_REQUEST, v == OPUS_AUTO || v == 1 || v == 2);   // managed by the surround encoder
-    else EXPECTV("FORCE_CHANNELS", OPUS_GET_FORCE_CHANNELS_REQUEST, m.force_ch);
+    if (m.mapping_type == 1) {   // the surround encoder manages the channel forcing of its streams itself: range check only
+      GETV("FORCE_CHANNELS", OPUS_GET_FORCE_CHANNELS_REQUEST)
+      if (!(v == OPUS_AUTO || v == 1 || v == 2)) return rep.fail("c11:status-range:ms-enc:GET_FORCE_CHANNELS", "surround GET_FORCE_CHANNELS reports %d", v);
+      snap.add("FORCE_CHANNELS", v, false);
+    } else EXPECTV("FORCE_CHANNELS", OPUS_GET_FORCE_CHANNELS_REQUEST, m.force_ch);
     EXPECTV("SIGNAL", OPUS_GET_SIGNAL_REQUEST, m.signal);
     EXPECTV("LSB_DEPTH", OPUS_GET_LSB_DEPTH_REQUEST, m.lsb);
     EXPECTV("EXPERT_FRAME_DURATION", OPUS_GET_EXPERT_FRAME_DURATION_REQUEST, m.expert);
